@@ -65,3 +65,31 @@ func VerifEvict(z authorizer.Authorizer, host string, attr authorizer.Attributes
 	})
 	return found
 }
+
+// VerifCacheKey: one key of the caches map — its host and, when the key carries
+// one (struct key with a cluster field), the identity of the ClusterInfo.
+type VerifCacheKey struct {
+	Host    string
+	Cluster uintptr // 0: the key does not name a cluster
+}
+
+func verifKeyCluster(k interface{}) uintptr {
+	v := reflect.ValueOf(k)
+	if v.Kind() == reflect.Struct {
+		if f := v.FieldByName("cluster"); f.IsValid() && f.Kind() == reflect.Ptr {
+			return f.Pointer()
+		}
+	}
+	return 0
+}
+
+// VerifCacheKeys lists the keys of the SAR caches map.
+func VerifCacheKeys(z authorizer.Authorizer) []VerifCacheKey {
+	a := z.(*MultiClusterSubjectAccessReviewAuthorizer)
+	out := []VerifCacheKey{}
+	a.caches.Range(func(k, _ interface{}) bool {
+		out = append(out, VerifCacheKey{Host: verifKeyHost(k), Cluster: verifKeyCluster(k)})
+		return true
+	})
+	return out
+}
